@@ -138,10 +138,10 @@ def initSt : St := { slots := List.replicate 9 none }
 `finalDestructors` lists as a set -/
 def runOps (ops : List Op) : St := exec (ops.flatMap compile) initSt
 
-/-- destructor lines produced when the four program variables are released at the end of `main` (in slot order;
-the implementation's order is that of a hash map, so the checker compares this part as a multiset) -/
+/-- destructor lines produced when the four program variables are released at the end of `main`: a scope lets its
+values die in reverse order of declaration (slots are declared in order 0, 1, 2, 3) -/
 def finalDestructors (s : St) : List String :=
-  let s' := [0, 1, 2, 3].foldl (fun st d => assignSlot st d none) { s with out := [] }
+  let s' := [3, 2, 1, 0].foldl (fun st d => assignSlot st d none) { s with out := [] }
   s'.out
 
 end BlochVerif.Life
